@@ -1,6 +1,6 @@
 #!/bin/sh
 # tools/try_seed.sh <patch.diff> <PROP> [<PROP>...] : apply a seeded change to /repo, run the quick checks, undo it.
-PATCH=$1; shift
+PATCH=$(readlink -f "$1"); shift
 cd /repo || exit 2
 if ! git diff --quiet; then echo "repo dirty"; exit 2; fi
 git apply "$PATCH" || { echo "patch does not apply"; exit 2; }
